@@ -331,7 +331,7 @@ func uncoveredNonNilScope(fn *ssa.Function, target ssa.Instruction, account func
 // that has not entered a scope of its own writes into the frame of whoever called it.
 
 func init() {
-	register(&Rule{ID: "FRAME-file", Props: []string{"C19"}, Min: 3,
+	register(&Rule{ID: "FRAME-file", Props: []string{"C19"}, Min: 2,
 		Doc: "P (pairing, path-based): every store to scope.frame.file (or to the whole frame) is made on a scope the function has entered itself on every path to the store (enterScope family), or the function defers a store that writes the saved value back. cmplEvaluateNodeProgram runs direct eval code in the caller's scope: without the deferred restore the caller's frame keeps the eval text as its file and every later position of that activation is resolved against the wrong text (`at f (<unknown>)`, or a silently wrong `<anonymous>:27:1`)",
 		Run: ruleFrameFile})
 }
